@@ -2,6 +2,7 @@
 the non-refused path; counter-reset discipline; which AST slots evaluated in another activation the
 operation traversal reaches without crossing a block; which identifiers the collision check can see;
 the refusal gate.  Not decided: the liveness argument for generated programs."""
+import re
 from .. import hir, gate
 from ..engine import AnchorMissing
 from ..prov import Prov, origin_str, return_exprs
@@ -570,8 +571,42 @@ def rule_counter(check):
     check.expect(ok, R, R + "/dummy-span", hir.loc(ca.rec), "injected identifiers carry DUMMY_SP (what the collision check uses to tell them from user identifiers)", "injected identifiers no longer carry DUMMY_SP: the collision check treats them as user identifiers")
 
 
+def rule_declare_scope(check):
+    """DECLARE-SCOPE (C01, C03, C06): the `let` that declares the temporaries goes into block B, so the
+    operation visitor that creates them may only run over what B contains"""
+    R = "DECLARE-SCOPE"
+    check.rule(R, "wherever an OperationTransformVisitor is constructed and run, every tree it is run over is the block whose statements receive the `let` of its temporaries (the node handed to insert_variable_declaration), visited through its children: a sub-tree outside that block (parameters, another block) would use temporaries that are not in scope there")
+    prog = check.prog
+    n_ctor = 0
+    for f in prog.user_fns:
+        lits = [n for n in hir.walk(f.body) if n.get("k") == "Struct" and (n["res"].get("path") or "").split("<")[0].endswith(OPV)]
+        if not lits:
+            continue
+        n_ctor += len(lits)
+        visits = []
+        for n in f.nodes():
+            if n.get("k") == "MethodCall" and n["method"] in T_VISIT_METHODS and n["args"]:
+                if OPV in (hir.peel(n["args"][0]).get("ty") or "") and hir.local_of(n["args"][0]) and hir.local_of(n["args"][0])[1] != "self":
+                    visits.append(n)
+        decl = list(hir.calls_in(f.body, name="insert_variable_declaration"))
+        check.expect(bool(visits) and bool(decl), R, "%s/%s/driver" % (R, f.name), hir.loc(f.rec), "%s runs the operation visitor and declares its temporaries" % f.name, "%s constructs an operation visitor but does not both run it and declare its temporaries (%d visits, %d declarations)" % (f.name, len(visits), len(decl)))
+        if not visits or not decl:
+            continue
+        blocks = {(hir.local_of(hir.call_args(d)[1]) or (None,))[0] for d in decl}
+        for v in visits:
+            root = hir.local_of(v["recv"])
+            direct = hir.peel(v["recv"]).get("k") in ("Path",) or (hir.place(v["recv"]) or "").count(".") == 0
+            ok = bool(root) and root[0] in blocks and len(blocks) == 1 and direct and v["method"].endswith("children_with")
+            check.expect(ok, R, "%s/%s/%s" % (R, f.name, re.sub(r"#\d+", "", hir.place(v["recv"]) or hir.describe(v["recv"]))[:40]), hir.loc(v), "the operation visitor runs over the children of the block that gets the `let`", "the operation visitor is run over `%s`, which is not (the children of) the block that receives the `let` of its temporaries: those temporaries are used where they are not declared" % re.sub(r"#\d+", "", hir.place(v["recv"]) or hir.describe(v["recv"])))
+    check.floor(R, "operation visitor constructions", n_ctor, 1)
+
+
+T_VISIT_METHODS = {"visit_mut_with", "visit_mut_children_with", "visit_with", "visit_children_with"}
+
+
 def run(check):
     check.guarded("COUNTER", rule_counter)
+    check.guarded("DECLARE-SCOPE", rule_declare_scope)
     check.guarded("DECLARE-PATH", rule_declare_path)
     check.guarded("DECLARE-FIRST", rule_declare_first)
     check.guarded("RESET-DISCIPLINE", rule_reset)
